@@ -7,6 +7,8 @@ rc=0
 for d in "$V"/seeded/*/; do
   [ -f "$d/meta.json" ] || continue
   p=$(python3 -c "import json,sys; print(json.load(open(sys.argv[1]))['property'])" "$d/meta.json")
+  exp=$(python3 -c "import json,sys; print(json.load(open(sys.argv[1])).get('expected','caught'))" "$d/meta.json")
+  if [ "$exp" = "not-caught" ]; then echo "OUT-OF-SCOPE $(basename "$d") (judged outside the property, see its meta.json)"; continue; fi
   out=$("$V/tools/seed_eval.sh" "$d" "$tier" "$p" 2>&1)
   line=$(echo "$out" | grep "^check $p" | head -1)
   case "$line" in
